@@ -243,7 +243,7 @@ PROPS = {
                   'region edges are straight in Web-Mercator (as orb rasterises and tests them), not geodesics or straight in lon/lat',
                   'PARTIAL CLAIM: the metric clauses of the property (more than one finest-zoom tile inside / more than one tile width outside) are decided by the oracle on every case, not by a theorem; '
                   'the theorems cover the fill, the propagation, parent closure and nearness in the ancestor sense'],
-  'explanation': 'see Properties/C16.v (C16_fill_exact with C16_separation from C01_adjacent, C16_relevant_spec, C16_cover_finest, C16_near, C16_parents); the model recomputes interior ranges and relevance set from the '
+  'explanation': 'see Properties/C16.v (C16_fill_exact with C16_separation from C01_adjacent, C16_relevant_spec, C16_cover_finest, C16_near, C16_parents; C16_header_bounds and C16_header_center: bounds within one E7 unit, centre within one unit of the exact midpoint, over the Flocq binary64 model of the conversions); the model recomputes interior ranges and relevance set from the '
                  'real boundary cover and the harness\'s own point-in-polygon answers and must agree with the real code; header bounds/centre are compared with the Flocq model.',
   'allowed_axioms': ['sig_not_dec', 'sig_forall_dec', 'functional_extensionality_dep', 'classic'],
  },
